@@ -17,7 +17,7 @@ WATCHDOG = {"quick": 1800, "thorough": 10800}
 HISTORIES = {"quick": 5, "thorough": 60}
 OPS = {"quick": (40, 90), "thorough": (60, 200)}
 FLOORS = {
-    "quick": {"distinct_nontrivial": 300, "output_events_compared": 800, "twins_built": 2000,
+    "quick": {"distinct_nontrivial": 300, "output_events_compared": 600, "twins_built": 2000,
               "K3_evaluations": 3000, "events_after_other_data": 400, "events_on_sharing_objects": 80,
               "update_events": 25, "set_params_events": 15, "clone_events": 15},
     "thorough": {"distinct_nontrivial": 6000, "output_events_compared": 15000},
